@@ -121,8 +121,10 @@ func NewInstance(s *Sched, name string, cfg InstCfg) (*Instance, error) {
 	if err != nil {
 		return fail(err)
 	}
+	// The ruler gets the real locker itself (its yield points are the verifhook calls inside it): a wrapper would
+	// hide whatever optional interfaces the locker offers from the ruler's type assertions.
 	inst.LockerW = &LockerWrap{Service: lockerSvc, s: s}
-	rulerSvc, err := goruler.New(ctx, goruler.WithLocker(inst.LockerW), goruler.WithRules(inst.RulesW))
+	rulerSvc, err := goruler.New(ctx, goruler.WithLocker(lockerSvc), goruler.WithRules(inst.RulesW))
 	if err != nil {
 		return fail(err)
 	}
